@@ -96,9 +96,14 @@ class ExprEnc:
         if isinstance(e, ops.Cast):
             args = [self.enc(a) for a in e.parameters]
             try:
-                return s.intrinsic(e.name, args)
+                v = s.intrinsic(e.name, args)
             except NotImplementedError as ex:
                 raise NotEncoded(str(ex)) from ex
+            if getattr(e, 'kind', None) is not None and s.real_mode == 'uf' and s.is_real(v):
+                # the kind of a REAL conversion decides its rounding: under the uninterpreted-real abstraction a conversion
+                # to another (or no) kind is a different function (equal again over the exact reals)
+                v = z3.Function('kindcast_' + ''.join(str(e.kind).lower().split()), s.R, s.R)(v)
+            return v
         if isinstance(e, sym.InlineCall):
             args = [self.enc(a) for a in e.parameters]
             kwargs = {k: self.enc(v) for k, v in (e.kw_parameters or {}).items()}
